@@ -150,8 +150,13 @@ class Queue(Entity):
         """Driver is asking for work."""
         next_item = self.policy.pop()
         if next_item is None:
+            # Always answer a poll so the requestor knows it is no longer outstanding.
             logger.debug("[%s] Poll received but queue is empty", self.name)
-            return []
+            return [
+                QueueDeliverEvent(
+                    time=self.now, target=event.requestor, payload=None, queue_entity=self
+                )
+            ]
 
         logger.debug(
             "[%s] Delivering event to driver: type=%s depth=%d",
